@@ -63,7 +63,9 @@ STRS_ODD = ['"\\n"', "'\\''", '"\\""', '"\\\\"', "'\\x41'", '"\\u0041"', "'\\0'"
             '"a\\\nb"', "'a\\\r\nb'", '"a\\\rb"', u'"a\\ b"', u'"\u00e9"', u'"\u65e5\u672c"', '"//"', "'/*'", '"*/"',
             '"\'"', "'\"'", '"\\b\\f\\r\\t\\v"', "'</script>'", '"\\a\\q"', '"a\\\n"', "';'", '"}"', "'{'", u'"a\\\u2028b"', u"'\\\u2029'",
             # characters that split lines for Python (str.splitlines) but are ordinary characters of an ES5 string
-            '"a\\tb\x0cc"', "'\x0b\\\\'", u'"\x85\\n"', '"p\x1cq\x1dr\\x41"', '"\x0c"']
+            '"a\\tb\x0cc"', "'\x0b\\\\'", u'"\x85\\n"', '"p\x1cq\x1dr\\x41"', '"\x0c"',
+            # characters outside the BMP (two UTF-16 code units, one code point)
+            u'"\U0001f600"', u"'a\U00020000b'"]
 REGEX_COMMON = ['/re/', '/a/g', '/x/i']
 REGEX_ODD = ['/[/]/', '/\\//', '/[\\]]/', '/a/gim', '/=/', '/=a/', '/ /', '/\\\\/', '/[a-z]+/', '/(?:x)/',
              '/a|b/', '/\\d{2,3}/', '/[^/]*/g', "/'/", '/"/', '/a*/', '/\\*/', '/.+?/']
